@@ -1,11 +1,32 @@
 """Which functions (contracts) and which bounded stand-in decide each property."""
 
+ENGINE_NOTE = ("own VC generator: Python ast of the real source (re-read every run) -> symbolic execution against sidecar contracts "
+               "(contracts/*.py) -> z3, cvc5 on unknowns; counter-models are shrunk, concretised and replayed on the real code; "
+               "a native bounded layer (native/) stands in, labelled, for clauses no contract decides")
+NOT_BUILT = {}
+STD_NOTE = ("Assumed (listed in evidence.trusted_base): CPython semantics as encoded by pyvc (A-PY), attribute kinds of contracts/schema.py "
+            "(A-SCHEMA), closed class world (A-CLOSED), logging/warnings are no-ops (A-LOG), string builtins as uninterpreted functions with "
+            "the listed facts (A-STR/A-CHR)")
+
 W = "bibtexparser.writer."
 RE = "bibtexparser.middlewares.enclosing.RemoveEnclosingMiddleware."
 AE = "bibtexparser.middlewares.enclosing.AddEnclosingMiddleware."
+MO = "bibtexparser.middlewares.month."
 PROPS = {
+    "C15": {
+        "level": "proof",
+        "level_text": "The three result rules, type preservation of non-months, the absence of any exception and the shared 12-row table are postconditions / lemmas on the real resolve_month_field_val functions, discharged for every value (int or str) by z3; composition follows from the two composition lemmas; an exhaustive native enumeration of the finite part accompanies it.",
+        "level_note": STD_NOTE + "; str.lower/isdigit/isascii/int() are uninterpreted with the facts listed (value on literals from CPython, [0-9]+ characterisation).",
+        "modules": ["schema", "month"],
+        "functions": [MO + "MonthLongStringMiddleware.resolve_month_field_val", MO + "MonthAbbreviationMiddleware.resolve_month_field_val",
+                      MO + "MonthIntMiddleware.resolve_month_field_val"],
+        "lemmas": ["C15.shared-table", "C15.compose-abbr", "C15.compose-long"],
+        "native": None,
+    },
     "C10": {
         "level": "other",
+        "level_text": "Mixed. Proved for all values and option combinations (contracts on the 7 real functions + 2 lemmas, 95 obligations): exactly one layer is stripped and its kind recorded, reuse restores the original, default enclosing, integer rule, no exception, frames. Bounded (native, labelled): an enclosed value written into an entry re-parses as one field (needs the grammar lemma).",
+        "level_note": STD_NOTE + "; str.strip as an uninterpreted function (idempotent, identity when both end characters are not whitespace).",
         "modules": ["schema", "enclosing"],
         "functions": [RE + "_strip_enclosing", RE + "transform_entry", RE + "transform_string",
                       AE + "__init__", AE + "_enclose", AE + "transform_entry", AE + "transform_string"],
@@ -15,6 +36,8 @@ PROPS = {
     },
     "C06": {
         "level": "proof",
+        "level_text": "Every clause of the statement is a postcondition / loop invariant on the real writer functions (12 functions, 146 obligations) discharged by z3 for all libraries, formats and field counts; a bounded native layer re-checks the same clauses against a reference renderer.",
+        "level_note": STD_NOTE + "; str.format/splitlines/' '*n/join as uninterpreted functions (A-STR); copy.deepcopy as a fresh isomorphic copy (A-COPY).",
         "modules": ["schema", "writer"],
         "functions": [W + "_val_intent_string", W + "_treat_entry", W + "_treat_string", W + "_treat_preamble",
                       W + "_treat_impl_comment", W + "_treat_expl_comment", W + "_treat_failed_block", W + "_treat_block",
